@@ -250,6 +250,39 @@ func c01Invalidation(c *Ctx, r *Result, memoFn *ssa.Function, cacheField *types.
 				resets = append(resets, st)
 			}
 		}
+		// a helper on the same receiver that resets the memo on every path through it
+		allInstrs(fn, func(in ssa.Instruction) {
+			ci, ok := in.(ssa.CallInstruction)
+			if !ok {
+				return
+			}
+			if _, isDefer := in.(*ssa.Defer); isDefer {
+				return
+			}
+			h := ci.Common().StaticCallee()
+			if h == nil || h == fn || !c.modFuncSet[h] || h.Signature.Recv() == nil || namedOf(h.Signature.Recv().Type()) != recvT {
+				return
+			}
+			args := callArgs(ci.Common())
+			if len(args) == 0 || len(fn.Params) == 0 || args[0] != ssa.Value(fn.Params[0]) {
+				return
+			}
+			for _, a := range accessesOf(h, cacheField) {
+				st, isSt := a.Instr.(*ssa.Store)
+				if !isSt || !a.Write {
+					continue
+				}
+				all := true
+				allInstrs(h, func(x ssa.Instruction) {
+					if _, isRet := x.(*ssa.Return); isRet && x.Block() != h.Recover && !dominates(st, x) {
+						all = false
+					}
+				})
+				if all {
+					resets = append(resets, in)
+				}
+			}
+		})
 		key := c.FuncKey(fn)
 		for i, m := range muts {
 			n++
